@@ -1,6 +1,7 @@
 package checks
 
 import (
+	"fmt"
 	"math/rand"
 	"time"
 
@@ -77,11 +78,20 @@ func init() {
 		ID: "C05", Level: "exploration",
 		Rule:        "one-step conformance of every schedule request against the admission table: the pre-state is the model state confirmed equal to the observed state at the previous quiescence; result class, replaced victim, waiting counts vs queue_limit, 'rejected leaves no trace' (deep-equal job list); a situation is (admission class, #running, #waiting, #canceled-unstarted, decision)",
 		Assumptions: []string{seqAssumption},
-		Cases:       func(t string) int { return tierN(t, 1600, 40000) },
+		Cases:       func(t string) int { return tierN(t, 1600, 40000) + tierN(t, 320, 6000) },
 		RunCase: func(c *CaseCtx) *CaseResult {
+			if c.Idx >= tierN(c.Tier, 1600, 40000) {
+				return linCase(c, "C05")
+			}
 			o := admissionOpts(c.Idx + 3)
 			o.WSchedule, o.WFinish, o.WCancel, o.WFire, o.WStopRel, o.WRead = 48, 20, 16, 10, 4, 1
 			return histCase(c, o, 400)
+		},
+		Post: func(tier string, counters map[string]int) []string {
+			if counters["lin_ok"] < tierN(tier, 250, 4500) {
+				return []string{fmt.Sprintf("only %d stress histories were decided by the linearizability checker (%d unknown)", counters["lin_ok"], counters["lin_unknown"])}
+			}
+			return nil
 		},
 		MinDistinct: 100,
 	})
